@@ -45,6 +45,7 @@ def run(ctx):
         M = ctx.model(cfg)
         gname = "stream_group"
         grouplike.rule_insert(ctx, M, gname, "C12.INSERT")
+        grouplike.rule_insert_pinned(ctx, M, gname, "C12.INSERT")
         grouplike.rule_reserve(ctx, M, gname, "C12.RESERVE")
         grouplike.rule_remove(ctx, M, gname, "C12.REMOVE")
         grouplike.rule_view(ctx, M, gname, "C12.VIEW")
